@@ -208,3 +208,89 @@ Proof.
   - rewrite Hj, (initial_slashes_zero _ _ Hx). rewrite <- Hj.
     rewrite (split_join _ Hcne Hcs), Hfold. cbn [Nat.eqb negb repeat app]. rewrite Hyz. reflexivity.
 Qed.
+
+(* ---------- include names with "." and ".." components ---------- *)
+(* a component of an include name: non-empty, no slash (plain, "." or "..") *)
+Definition comp_ok (c : bytes) : bool := negb (bytes_eqb c []) && noslash c.
+
+Lemma comp_ok_inv (c : bytes) : comp_ok c = true -> c <> [] /\ noslash c = true.
+Proof.
+  unfold comp_ok. intros H. apply andb_true_iff in H as [H1 H2]. split; [|exact H2].
+  intros ->. discriminate.
+Qed.
+
+Lemma comp_ok_noslash_all (l : list bytes) : forallb comp_ok l = true -> forallb noslash l = true.
+Proof.
+  induction l as [|c l IH]; [reflexivity|]. cbn [forallb]. intros H. apply andb_true_iff in H as [Hc Hl].
+  rewrite (IH Hl), andb_true_r. now destruct (comp_ok_inv _ Hc).
+Qed.
+
+(* normpath(join(parent, "..", template)) for a parent [/]d1/../dn/base of plain components and ANY include
+   name t1/../tm whose components are non-empty (plain, "." or ".."): the name is interpreted component
+   by component starting in the directory of the parent - "." stays, ".." goes up (never above "/" for an
+   absolute parent; collected in front for a relative one) *)
+Theorem join_updir_general (absolute : bool) (dcomps : list bytes) (base : bytes) (tcomps : list bytes) :
+  forallb plain dcomps = true -> plain base = true -> forallb comp_ok tcomps = true -> tcomps <> [] ->
+  let pre := if absolute then [SL] else [] in
+  normpath (join2 (join2 (pre ++ join_slash (dcomps ++ [base])) DOTDOT) (join_slash tcomps))
+  = match pre ++ join_slash (rev (fold_left (norm_step absolute) tcomps (rev dcomps))) with
+    | [] => DOT
+    | r => r
+    end.
+Proof.
+  intros Hd Hb Ht Hne pre.
+  destruct (plain_inv _ Hb) as (Hbne & _ & _ & _ & Hbs).
+  destruct tcomps as [|t0 trest]; [congruence|].
+  cbn [forallb] in Ht. apply andb_true_iff in Ht as [Ht0 Htr].
+  destruct (comp_ok_inv _ Ht0) as (Ht0ne & Ht0s).
+  set (P := pre ++ join_slash (dcomps ++ [base])).
+  assert (HPne : P <> []).
+  { unfold P. destruct (join_slash_last dcomps base) as [s ->]. destruct base; [congruence|].
+    destruct pre; destruct s; discriminate. }
+  assert (HPe : ends_slash P = false).
+  { unfold P. destruct (join_slash_last dcomps base) as [s ->]. rewrite app_assoc, ends_slash_app by exact Hbne.
+    now apply ends_slash_noslash. }
+  rewrite (join2_plain P DOTDOT HPne HPe eq_refl).
+  assert (HTs : starts_slash (join_slash (t0 :: trest)) = false).
+  { destruct (join_slash_head t0 trest Ht0ne) as (x & s & Hjs & Hx). rewrite Hjs. cbn [starts_slash].
+    destruct t0 as [|x' r']; [congruence|]. cbn in Hx. subst x'.
+    cbn in Ht0s. apply andb_true_iff in Ht0s as [Hx _]. now apply negb_true_iff in Hx. }
+  rewrite join2_plain; [|destruct P; [congruence|discriminate]| |exact HTs].
+  2:{ rewrite ends_slash_app by discriminate. reflexivity. }
+  assert (Hall : (P ++ SL :: DOTDOT) ++ SL :: join_slash (t0 :: trest) =
+                 pre ++ join_slash ((dcomps ++ [base]) ++ [DOTDOT] ++ t0 :: trest)).
+  { unfold P. rewrite (join_slash_app (dcomps ++ [base]) ([DOTDOT] ++ t0 :: trest));
+      [|destruct dcomps; discriminate|discriminate].
+    change ([DOTDOT] ++ t0 :: trest) with (DOTDOT :: t0 :: trest).
+    change (join_slash (DOTDOT :: t0 :: trest)) with (DOTDOT ++ SL :: join_slash (t0 :: trest)).
+    rewrite <- !app_assoc. reflexivity. }
+  rewrite Hall. clear Hall HTs HPe HPne P.
+  set (comps := (dcomps ++ [base]) ++ [DOTDOT] ++ t0 :: trest).
+  assert (Hcs : forallb noslash comps = true).
+  { unfold comps. rewrite !forallb_app. rewrite (plain_noslash_all _ Hd). cbn [forallb].
+    rewrite Hbs, Ht0s, (comp_ok_noslash_all _ Htr). reflexivity. }
+  assert (Hcne : comps <> []) by (unfold comps; destruct dcomps; discriminate).
+  assert (Hhead : exists x s, join_slash comps = x :: s /\ (x =? SL) = false).
+  { unfold comps. destruct dcomps as [|d0 dr].
+    - cbn [app]. destruct (plain_head _ Hb) as (x & r & -> & Hx). eexists; eexists; split; [reflexivity|exact Hx].
+    - cbn [forallb] in Hd. apply andb_true_iff in Hd as [Hd0 _].
+      destruct (plain_head _ Hd0) as (x & r & -> & Hx). cbn [app].
+      destruct (dr ++ [base]) eqn:E; [destruct dr; discriminate|].
+      eexists; eexists; split; [reflexivity|exact Hx]. }
+  destruct Hhead as (x & s & Hj & Hx).
+  assert (Hfold : forall a, fold_left (norm_step a) comps [] = fold_left (norm_step a) (t0 :: trest) (rev dcomps)).
+  { intros a. unfold comps. rewrite app_assoc, fold_left_app. f_equal.
+    pose proof (norm_fold_updir a dcomps base [] Hd Hb eq_refl) as H0.
+    apply (f_equal (@rev bytes)) in H0. rewrite rev_involutive, !app_nil_r in H0.
+    rewrite <- app_assoc. exact H0. }
+  unfold normpath. destruct absolute; unfold pre; cbn [app].
+  - rewrite Hj, (initial_slashes_one _ _ Hx). rewrite <- Hj.
+    change (SL :: join_slash comps) with ([] ++ SL :: join_slash comps).
+    rewrite (split_app_slash [] _ eq_refl), (split_join _ Hcne Hcs).
+    cbn [fold_left].
+    replace (norm_step (negb (1 =? 0)%nat) [] []) with (@nil bytes) by reflexivity.
+    rewrite Hfold. reflexivity.
+  - rewrite Hj, (initial_slashes_zero _ _ Hx). rewrite <- Hj.
+    rewrite (split_join _ Hcne Hcs). cbn [Nat.eqb negb repeat app]. rewrite Hfold.
+    destruct (join_slash (rev (fold_left (norm_step false) (t0 :: trest) (rev dcomps)))); reflexivity.
+Qed.
